@@ -277,6 +277,19 @@ func genC17(t *rapid.T) (*DCase, map[string]bool, bool) {
 	}
 	stmts = append(stmts, g.build()...)
 	stmts = append(stmts, prints...)
+	if len(g.nodes) >= 2 && g.n(0, 2, "gallery") > 0 {
+		// several of the containers side by side in one printed value: a member of a cycle
+		// is then reached along paths on which the rest of its cycle is not an ancestor
+		var els []*ast.Node
+		var kvs []*ast.Node
+		for k, n := 0, g.n(2, 5, "ngallery"); k < n; k++ {
+			v := ast.Id(nodeVar(g.n(0, len(g.nodes)-1, "gnode")))
+			els = append(els, v)
+			kvs = append(kvs, ast.KV(c17Keys[k], v.Clone()))
+		}
+		stmts = append(stmts, ast.Print(ast.Arr(els...)), ast.Print(ast.Obj(kvs...), ast.Arr(els[1].Clone(), els[0].Clone())))
+		g.labels["gallery-of-containers"] = true
+	}
 	doc := gen.JSONDoc(gen.DocOpts{Depth: 2, MaxItems: 3, SafeStr: true, ForceEmpty: true}).Draw(t, "doc")
 	items := []*ast.Node{ast.Rule("pattern", nil, ast.Block(stmts...))}
 	if rapid.Bool().Draw(t, "bodiless") {
